@@ -287,6 +287,9 @@ func (conn *Conn) recv() {
 			})
 		}
 	}
+	// Responses already received are still sitting in the decode queue:
+	// let them complete their calls before the rest is failed.
+	pipeline.Close()
 	conn.mutex.Lock()
 	conn.shutdown = true
 	if err == io.EOF {
@@ -313,7 +316,6 @@ func (conn *Conn) recv() {
 	if conn.readStream != nil {
 		conn.readStream.Close()
 	}
-	pipeline.Close()
 }
 
 func (conn *Conn) read(ctx *Context, async bool) {
